@@ -809,6 +809,12 @@ def build(tier='quick', seed=0):
                              derives=['Debug', 'Clone', 'Copy', 'PartialEq', 'TryFrom', 'Into'],
                              const_fn=cf, tags=['consteq'], note='twin:A' + t))
         full.append(decl('float', t, validators=[V('finite')], new_unchecked=True, derives=['Debug', 'PartialEq', 'Eq', 'PartialOrd', 'Ord'], tags=['unchecked']))
+        # const_fn twins of the Eq/Ord declarations: `finite` is the only thing that keeps NaN out, also in a const fn
+        for cf in (False, True):
+            full.append(decl('float', t, validators=[V('finite')], const_fn=cf,
+                             derives=['Debug', 'Clone', 'Copy', 'PartialEq', 'Eq', 'PartialOrd', 'Ord', 'TryFrom', 'FromStr'], tags=['consteq', 'ord'], note='twin:F' + t))
+            full.append(decl('float', t, validators=[V('greater', '-1.5', -1.5, 'lit'), V('finite'), V('less_or_equal', '64.0', 64.0, 'lit')], const_fn=cf,
+                             derives=['Debug', 'PartialEq', 'Eq', 'PartialOrd', 'Ord', 'TryFrom', 'Deserialize'], tags=['consteq', 'ord'], note='twin:G' + t))
         # Arbitrary generators (C09): literal bounds of several magnitudes
         arb_cases = [
             [V('greater_or_equal', '0.0', 0.0, 'lit'), V('less_or_equal', '1.0', 1.0, 'lit')],
